@@ -23,7 +23,9 @@ FIX_COMMITS = ["d6ae502 (passive start-up cancellation: port/listener leak)",
                "5b1a18b (LIST line without a name silently dropped as a '.' entry)",
                "e5905ae (QUIT from a peer that does not read held the session for ever)",
                "e0f7c47 (control connection accepted just before Server.close() survived the close)",
-               "1dce1fd (ABOR before the transfer worker's first step killed the session)"]
+               "1dce1fd (ABOR before the transfer worker's first step killed the session)",
+               "d898b79 (MemoryPathIO listing skipped an entry when an earlier sibling was removed meanwhile)",
+               "0a8c063 (command sent before USER carried out in the new user's base directory)"]
 
 # dimensions added after the fourth wave of seeded changes (plug-in APIs as part of the input space)
 EXTRA = {
